@@ -107,6 +107,16 @@ TE164T ==
     /\ C("ToE164", Agrees(e.res, ToE164(e.n, e.origin, e.plus)))
     /\ Adv
 
-TraceNext == l <= Len(Ev(t)) /\ (TNtoa6 \/ TNtoa4 \/ TAton \/ TCanon \/ TInet \/ TFromAddr \/ TToAddr \/ TE164F \/ TE164T)
+(* any_for_af "Return the 'any' address for the specified address family"; inet_pton / inet_ntop
+   "raises NotImplementedError: If the address family is not implemented" *)
+NotImpl(r) == r[1] = "err" /\ r[4] = "NotImplementedError"
+TFamily ==
+    /\ e.op = "family"
+    /\ C("AnyForAf", /\ e.any4[1] = "ok" /\ Aton4(e.any4[2]) = Ok(Zeros(4))
+                      /\ e.any6[1] = "ok" /\ Aton6(e.any6[2]) = Ok(Zeros(16)))
+    /\ C("FamilyNotImplemented", NotImpl(e.anybad) /\ NotImpl(e.ptonbad) /\ NotImpl(e.ntopbad) /\ NotImpl(e.llbad))
+    /\ Adv
+
+TraceNext == l <= Len(Ev(t)) /\ (TFamily \/ TNtoa6 \/ TNtoa4 \/ TAton \/ TCanon \/ TInet \/ TFromAddr \/ TToAddr \/ TE164F \/ TE164T)
 Accepted == Accepting(t, l)
 =============================================================================
